@@ -133,7 +133,7 @@ func firstWords(s string, n int) string {
 
 func c05Opts(seed uint64) progOpts {
 	r := newRng(seed, 0xc05)
-	return progOpts{
+	o := progOpts{
 		rejecting:  r.chance(1, 3),
 		sites:      r.between(2, 4),
 		nonFatal:   r.chance(1, 2),
@@ -142,6 +142,10 @@ func c05Opts(seed uint64) progOpts {
 		failDen:    r.between(3, 9),
 		customFail: r.chance(1, 3),
 	}
+	if r.chance(1, 6) {
+		o.repeat, o.fatalActions = true, true
+	}
+	return o
 }
 
 func c05Config(k int, seed uint64) checkCfg {
